@@ -217,3 +217,72 @@ benign("c05-buffer-reset-on-connect", ["C05", "C15"], [(M, '''        self.authe
         self.__read_buffer = b""
 ''')])
 benign("c05-size-pattern-digits-class", ["C05"], [(M, r'''re.compile(rb"\{(\d+)\+?\}")''', r'''re.compile(rb"\{([0-9]+)\+?\}")''')])
+
+# --------------------------------------------------------------------------- C09
+seeded("q1-setactive-inverted", ["C09"], "Q1", [(M, '''        code, data = self.__send_command("SETACTIVE", [scriptname.encode("utf-8")])
+        if code == "OK":
+            return True
+        return False''', '''        code, data = self.__send_command("SETACTIVE", [scriptname.encode("utf-8")])
+        if code == "NO":
+            return True
+        return False''')], "no NO reply in the suite; OK replies... this one breaks test_setactive? (kept as checker test only)")
+seeded("q1-putscript-always-true", ["C09"], "Q1", [(M, '''        code, data = self.__send_command("PUTSCRIPT", [name.encode("utf-8"), bcontent])
+        if code == "OK":
+            return True
+        return False''', '''        code, data = self.__send_command("PUTSCRIPT", [name.encode("utf-8"), bcontent])
+        return True''')], "suite has no NO reply")
+seeded("q1-getscript-returns-on-no", ["C09"], "Q1", [(M, '''        if code == "OK":
+            lines = content.splitlines()''', '''        if code is not None:
+            lines = content.splitlines()''')])
+seeded("q1-listscripts-no-ignored", ["C09"], "Q1", [(M, '''        code, data, listing = self.__send_command("LISTSCRIPTS", withcontent=True)
+        if code == "NO":
+            return None''', '''        code, data, listing = self.__send_command("LISTSCRIPTS", withcontent=True)
+        if code == "no":
+            return None''')])
+seeded("q1-havespace-raises-on-no", ["C09"], "Q1", [(M, '''            "HAVESPACE", [scriptname.encode("utf-8"), scriptsize]
+        )
+        if code == "OK":
+            return True
+        return False''', '''            "HAVESPACE", [scriptname.encode("utf-8"), scriptsize]
+        )
+        if code == "OK":
+            return True
+        raise Error("no space")''')])
+seeded("q2-status-atoms-extended", ["C09"], "Q2", [(M, r'''re.compile(rb"(OK|NO|BYE)\s*(.+)?")''', r'''re.compile(rb"(OK|NO|BYE|BAD)\s*(.+)?")''')])
+seeded("q2-bye-not-raised", ["C09"], "Q2", [(M, '''                if m.group(1) == b"BYE":
+                    raise Error("Connection closed by server")
+''', '')])
+seeded("q2-no-skips-parser", ["C09"], "Q2", [(M, '''                if m.group(1) == b"NO":
+                    self.__parse_error(m.group(2))
+''', '''                if m.group(1) == b"NO" and m.group(2) is not None:
+                    self.__parse_error(m.group(2))
+''')], "errcode/errmsg keep stale values on a bare NO")
+seeded("q2-search-instead-of-match", ["C09"], "Q2", [(M, "m = self.__respcode_expr.match(ret)", "m = self.__respcode_expr.search(ret)")])
+seeded("q3-none-guard-dropped", ["C09"], "Q3", [(M, '''        if text is None:
+            text = b""
+        m = self.__error_expr.match(text)''', '''        m = self.__error_expr.match(text)''')], "pre-fix behaviour: bare NO -> TypeError")
+seeded("q3-errcode-unguarded", ["C09"], "Q3", [(M, '''        if m.group(1) is not None:
+            self.errcode = m.group(1).strip(b"()")
+        else:
+            self.errcode = b""
+''', '''        self.errcode = m.group(1).strip(b"()")
+''')])
+seeded("q4-text-mandatory-again", ["C09"], "Q4", [(M, r'''re.compile(rb'(\([^)]+\))?\s*(".*"|\{\d+\+?\})?')''', r'''re.compile(rb'(\([^)]+\))?\s*(".*"|\{\d+\+?\})')''')], "NO (CODE) -> AttributeError on None match")
+seeded("q4-errmsg-not-reset", ["C09"], "Q4", [(M, '''        if m.group(2) is None:
+            self.errmsg = b""
+            return''', '''        if m.group(2) is None:
+            return''')], "stale errmsg from the previous failure")
+seeded("q5-errmsg-from-ok-data", ["C09"], "Q5", [(M, '''        code, data = self.__send_command("SETACTIVE", [scriptname.encode("utf-8")])''', '''        code, data = self.__send_command("SETACTIVE", [scriptname.encode("utf-8")])
+        self.errmsg = data''')])
+
+benign("c09-if-no-return-false", ["C09"], [(M, '''        code, data = self.__send_command("SETACTIVE", [scriptname.encode("utf-8")])
+        if code == "OK":
+            return True
+        return False''', '''        code, data = self.__send_command("SETACTIVE", [scriptname.encode("utf-8")])
+        if code == "NO":
+            return False
+        return True''')])
+benign("c09-status-pattern-noncapturing-rewrite", ["C09"], [(M, r'''re.compile(rb"(OK|NO|BYE)\s*(.+)?")''', r'''re.compile(rb"(BYE|NO|OK)\s*(.+)?")''')])
+benign("c09-ifexp-none-guard", ["C09"], [(M, '''        if text is None:
+            text = b""
+        m = self.__error_expr.match(text)''', '''        m = self.__error_expr.match(text if text is not None else b"")''')])
